@@ -45,6 +45,14 @@ theorem c13_shape_independent {α : Type} (e : Expr α) :
       · rename_i q hq; simp only [Option.some.injEq, Val.pipeline.injEq] at hp; subst hp; exact ih.1 q hq
       · simp at hp
     · intro a ha; split at ha <;> simp at ha
+  | setErr e ih =>
+    simp only [eval, leaves]
+    constructor
+    · intro p hp
+      split at hp
+      · rename_i q hq; simp only [Option.some.injEq, Val.pipeline.injEq] at hp; subst hp; exact ih.1 q hq
+      · simp at hp
+    · intro a ha; split at ha <;> simp at ha
   | or l r ihl ihr =>
     simp only [eval, leaves]
     constructor
@@ -76,6 +84,19 @@ theorem c13_settings_of_composition {α : Type} (l r : Expr α) (p q : PDesc α)
     (hl : eval l = some (.pipeline p)) (hr : eval r = some (.pipeline q)) :
     ∃ s, eval (.or l r) = some (.pipeline s) ∧ s.sin = p.sin ∧ s.sout = q.sout := by
   simp [eval, hl, hr]
+
+/-- `stderr_to` is a setting of the pipeline, not of the commands present when it is given: it
+    survives appending further commands or a further pipeline with `|` (so, by `c13_wiring`, every
+    command -- also the ones appended later -- gets the shared sink as its stderr) -/
+theorem c13_stderr_setting_survives_composition {α : Type} (l r : Expr α) (p : PDesc α)
+    (hl : eval l = some (.pipeline p)) (he : p.errTo = true) :
+    (∀ b, eval r = some (.exec b) → ∃ s, eval (.or l r) = some (.pipeline s) ∧ s.errTo = true) ∧
+    (∀ q, eval r = some (.pipeline q) → ∃ s, eval (.or l r) = some (.pipeline s) ∧ s.errTo = true) ∧
+    (∃ s, eval (.setErr l) = some (.pipeline s) ∧ s.errTo = true) := by
+  refine ⟨?_, ?_, ?_⟩
+  · intro b hb; simp [eval, hl, hb, he]
+  · intro q hq; simp [eval, hl, hq, he]
+  · simp [eval, hl]
 
 /-- **C13 (stage i feeds exactly stage i+1).**  When all commands start, they are started in order
     with the attachments `att0/att1/att2`; command i writes into pipe `2+i` and command i+1 -- and
